@@ -291,7 +291,13 @@ func (p *parser) parseMapping(what string, n *yaml.Node, allowEmpty, caseSensiti
 			p.errorfAt(k.Pos, "key %q is duplicated in %s. previously defined at %s%s", k.Value, what, pos.String(), note)
 			continue
 		}
-		m = append(m, workflowKeyVal{id, k, n.Content[i+1]})
+		v := n.Content[i+1]
+		if v.Kind == yaml.ScalarNode && v.Tag == "!!null" && v.Value == "" && v.Line > n.Content[i].Line {
+			// Implicit null value of "? key" is put at the next token by YAML parser. The position may be after the
+			// end of the file. Put the value at the position of its key instead
+			v.Line, v.Column = n.Content[i].Line, n.Content[i].Column
+		}
+		m = append(m, workflowKeyVal{id, k, v})
 		keys[id] = k.Pos
 	}
 
